@@ -1,23 +1,34 @@
 """C17 — v4 time and frequency axes; preselection is equivalent to selection."""
+import os
 from fractions import Fraction
 
 import numpy as np
+from katsdptelstate.rdb_writer import RDBWriter
 
+import katdal
+import katpoint
 from fixtures import v4
 from katdal.spectral_window import SpectralWindow
 
-RULE = ('(a) v4 data sets with dyadic timing attributes, capture start one second either side of each documented fix '
-        'date or far from it, both CBF generations and modes, with/without CBF attributes, time_offset, preselected '
-        'dump ranges: timestamps/start/end/time_offset compared exactly with the model and the spec; '
-        '(b) SpectralWindow objects N in 1..9, both sidebands: channel_freqs, every subrange(first,last) incl. invalid '
-        'ones, every rechannelise(M), compared exactly; (c) preselected vs fully opened data set on the same store: '
-        'timestamps, freqs, vis, flags, weights, a numeric sensor, later relative selections; (d) preselect validation. '
+RULE = ('(a) v4 data sets with dyadic timing attributes: capture start (incl. time_offset) exactly on, one second / a '
+        'quarter second / an hour / whole days either side of each documented fix date or far from it, both CBF '
+        'generations and modes, with/without CBF attributes, time_offset, preselected dump ranges given as normalised or '
+        'un-normalised slices (None, negative, overshooting ends), opened directly, through katdal.open on an RDB file or '
+        'metadata-only (no chunk store): '
+        'timestamps/start/end/time_offset compared exactly with the model and the spec; '
+        '(b) SpectralWindow objects N in 1..9, both sidebands: channel_freqs and attributes, every subrange(first,last) '
+        'incl. invalid ones, every rechannelise(M) incl. the aligned channel edges, compared exactly; '
+        '(c) preselected vs fully opened data set on the same store (dumps only / channels only / both, odd and even '
+        'channel counts): timestamps, freqs, channel_width, vis, flags, weights, a numeric sensor, start/end, later '
+        'relative selections; freqs of both also against centre + (k - N//2) * bandwidth / N of the telstate attributes; '
+        '(d) preselect validation with and without a chunk store: fixed forms, every select keyword and near misses alone '
+        'and next to a valid key, reversed ranges, random key/step forms; (e) katpoint reads the fix dates as UTC midnight. '
         'A case is non-trivial when it has >= 2 dumps/channels; distinct by its full parameter tuple.')
 ASSUMPTIONS = ['float64 arithmetic is exact on the generated (dyadic) values, so comparisons are equalities',
-               'katpoint.Timestamp(date).secs is UTC midnight of the date',
-               'Python slice normalisation of preselect ranges is done by the harness (slice.indices)']
+               'Python slice normalisation of preselect ranges (slice.indices) is taken from Python, not modelled']
 
 FIX_DATES = [1549843200, 1551571200, 1552608000]
+DAY = 86400
 
 
 def q(x):
@@ -35,16 +46,26 @@ def exact(x):
 
 def gen_timing(rng):
     kind = rng.random()
-    if kind < 0.75:
+    off = rng.choice([0.0, 0.0, 0.25, -0.5, 3.0, -2.0, 86400.0, -86400.0])
+    if kind < 0.12:
+        # the capture start INCLUDING time_offset is exactly a fix date (the first capture that is NOT corrected)
+        start = rng.choice(FIX_DATES) - off
+    elif kind < 0.6:
+        # the capture start INCLUDING time_offset sits at / next to a fix date
         dte = rng.choice(FIX_DATES)
-        start = dte + rng.choice([-1, 0, 1, -2, 2, -7, 5, -3600, 3600]) + rng.choice([0, 0, 0.25, 0.5])
+        start = dte + rng.choice([-1, 0, 1, -2, 2, -7, 5, -3600, 3600, 0, -0.25, 0.25]) + rng.choice([0, 0, 0.25, 0.5]) - off
+    elif kind < 0.7:
+        # the capture start EXCLUDING time_offset sits at / next to a fix date
+        start = rng.choice(FIX_DATES) + rng.choice([-1, 0, 1, -0.25])
+    elif kind < 0.9:
+        # whole days around the dates (a date moved by days or weeks in the rule is then seen)
+        start = rng.choice(FIX_DATES) + DAY * rng.randint(-45, 45) + rng.choice([0, 0.5, -0.5])
     else:
         start = rng.choice([1500000000, 1549000000, 1560000000, 1600000000]) + rng.choice([0, 0.5])
     first = rng.choice([0.0, 123.0, 999.25, 10.5])
     sync = start - first
-    int_time = rng.choice([0.5, 1.0, 2.0, 4.0, 8.0])
-    off = rng.choice([0.0, 0.0, 0.25, -0.5, 3.0, -2.0])
-    cbf = rng.choice([None, 0.25, 0.5, 0.5, 1.0])
+    int_time = rng.choice([0.5, 1.0, 2.0, 4.0, 8.0, 0.75, 1.5, 2.5])
+    cbf = rng.choice([None, 0.25, 0.5, 0.5, 1.0, 0.125])
     if cbf is not None and cbf > int_time:
         cbf = int_time
     cmc2 = rng.random() < 0.5
@@ -52,42 +73,128 @@ def gen_timing(rng):
     return dict(sync=sync, first=first, int_time=int_time, off=off, cbf=cbf, cmc2=cmc2, cbf4k=cbf4k)
 
 
+def gen_slice(rng, n):
+    """(start, stop) of a unit-step slice over n items: plain, open-ended, negative or overshooting."""
+    k = rng.random()
+    a = rng.randint(0, n - 1)
+    b = rng.randint(a + 1, n)
+    if k < 0.4:
+        return (a, b)
+    start = rng.choice([a, a, a - n, None if a == 0 else a])
+    stop = rng.choice([b, b, None if b == n else b, b - n if b < n else n + rng.randint(0, 3), b])
+    if rng.random() < 0.06:
+        start, stop = b, a       # empty
+    return (start, stop)
+
+
 def wire_timing(t):
     return [q(t['sync']), q(t['first']), q(t['int_time']), q(t['off']),
             [q(t['cbf'])] if t['cbf'] is not None else [], int(t['cmc2']), int(t['cbf4k'])]
 
 
-def build(t, T, F, seed, tmp=None):
+def build(t, T, F, seed, cw=None, centre=None):
+    kw = {}
+    if cw is not None:
+        kw = dict(bandwidth=F * cw, center_freq=centre)
     return v4.build_v4(
         T=T, F=F, seed=seed, sync_time=t['sync'], first_timestamp=t['first'], int_time=t['int_time'],
         cbf=None if t['cbf'] is None else (t['cbf'], 64, 1712e6),
         sub_pool_resources=('cbf_dev_2,sdp_1,m000,m001' if t['cmc2'] else 'cbf_1,sdp_1,m000,m001'),
         sub_product=('c856M4k' if t['cbf4k'] else 'c856M1k'),
         open_kwargs=dict(time_offset=t['off']),
+        # a ramp of 1 unit / s that covers every dump of the capture wherever time_offset and the CBF fix move it
         extra_sensors=[('anc_air_temperature',
-                        [(t['sync'] + t['first'] - 4.0, 1.0), (t['sync'] + t['first'] + 64.0, 69.0)])])
+                        [(t['sync'] + t['first'] + t['off'] - 4.0, 1.0), (t['sync'] + t['first'] + t['off'] + 68.0, 73.0)])],
+        **kw)
+
+
+def write_rdb(x):
+    """The telstate of x as <store>/<cbid>/<cbid>_<stream>.rdb, so that katdal.open finds the adjacent npy store."""
+    d = os.path.join(x.tmp, x.cbid)
+    os.makedirs(d, exist_ok=True)
+    p = os.path.join(d, '%s_%s.rdb' % (x.cbid, x.stream))
+    if not os.path.exists(p):
+        with RDBWriter(p) as w:
+            w.save(x.telstate)
+    return p + '?capture_block_id=%s&stream_name=%s' % (x.cbid, x.stream)
+
+
+def open_pre(x, t, pre, via):
+    """A second data set on the same store, preselected.  via: 'direct' (TelstateDataSource + VisibilityDataV4) or
+    'open' (katdal.open of an RDB file) or 'meta' (no chunk store)."""
+    if via == 'open':
+        kw = dict(time_offset=t['off'])
+        if pre is not None:
+            kw['preselect'] = pre
+        return katdal.open(write_rdb(x), **kw)
+    if via == 'meta':
+        # metadata-only data set (no chunk store): the validation in TelstateDataSource is the only line of defence
+        from katdal.datasources import TelstateDataSource
+        from katdal.visdatav4 import VisibilityDataV4
+        kw = {} if pre is None else dict(preselect=pre)
+        src = TelstateDataSource(x.view, x.cbid, x.stream, chunk_store=None, **kw)
+        return VisibilityDataV4(src, time_offset=t['off'], **kw)
+    if pre is None:
+        return v4.reopen(x, {}, dict(time_offset=t['off']))
+    return v4.reopen(x, dict(preselect=pre), dict(preselect=pre, time_offset=t['off']))
+
+
+def fix_date_of(t):
+    return (FIX_DATES[0] if t['cbf4k'] else FIX_DATES[1]) if t['cmc2'] else FIX_DATES[2]
 
 
 def straddles(t, a):
     """Does the first preselected dump lie on the other side of the applicable fix date than the capture start?"""
-    dte = (FIX_DATES[0] if t['cbf4k'] else FIX_DATES[1]) if t['cmc2'] else FIX_DATES[2]
+    dte = fix_date_of(t)
     s0 = t['sync'] + t['first'] + t['off']
     sa = s0 + a * t['int_time']
     return (s0 < dte) != (sa < dte)
 
 
-def check_timing(ctx, t, T, a, b):
-    """Open (optionally preselected a:b) and compare with model (tie) and spec (property)."""
+def spec_py(t, a, n):
+    dte = fix_date_of(t)
+    s0 = Fraction(t['sync']) + Fraction(t['first']) + Fraction(t['off'])
+    fix = Fraction(t['cbf']) if (t['cbf'] is not None and s0 < dte) else 0
+    return [s0 + (a + i) * Fraction(t['int_time']) - fix for i in range(n)]
+
+
+def where(t):
+    """Position of the capture start (incl. time_offset) relative to the applicable fix date, for signatures."""
+    s0 = Fraction(t['sync']) + Fraction(t['first']) + Fraction(t['off'])
+    dte = fix_date_of(t)
+    return 'on' if s0 == dte else ('before' if s0 < dte else 'after')
+
+
+def timing_case(t):
+    return {k: (float(v) if isinstance(v, float) else v) for k, v in t.items()}
+
+
+def check_timing(ctx, t, T, a=None, b=None, via='direct', sl=None):
+    """Open (optionally preselected) and compare with model (tie) and spec (property).
+    sl = (start, stop) as given to preselect; default the normalised (a, b); (0, T) with sl None = no preselect."""
+    if sl is None:
+        sl = (a, b)
+    a, b, _ = slice(sl[0], sl[1]).indices(T)
     x = build(t, T, 4, ctx.seed)
+    case = dict(timing=timing_case(t), T=T, a=a, b=b, via=via, sl=list(sl))
+    pre = None if tuple(sl) == (0, T) else dict(dumps=slice(sl[0], sl[1]))
+    n = max(b - a, 0)
     try:
-        pre = None if (a, b) == (0, T) else dict(dumps=slice(a, b))
-        d = x.d if pre is None else v4.reopen(x, dict(preselect=pre), dict(preselect=pre, time_offset=t['off']))
-        n = b - a
+        d = x.d if (pre is None and via == 'direct') else open_pre(x, t, pre, via)
         impl_ts = [exact(v) for v in d.timestamps]
-        impl = dict(ts=impl_ts, start=exact(d.start_time.secs), end=exact(d.end_time.secs), off=exact(d.time_offset))
+        impl = dict(ts=impl_ts, start=exact(d.start_time.secs), end=exact(d.end_time.secs), off=exact(d.time_offset),
+                    dump_period=exact(d.dump_period))
+    except Exception as e:
+        if b <= a and isinstance(e, (IndexError, ValueError)):
+            # an empty preselection is outside the domain: rejecting it is fine
+            ctx.note_case(('timing-empty', repr(sorted(t.items())), T, tuple(sl), via), nontrivial=False)
+            ctx.count('timing:empty_rejected')
+            return
+        ctx.disagree('what=exception;stream=timing;via=%s;exc=%s' % (via, type(e).__name__), case, repr(e)[:300], None,
+                     'opening the data set raised on an in-domain input')
+        return
     finally:
         v4.cleanup(x)
-    case = dict(timing={k: (float(v) if isinstance(v, float) else v) for k, v in t.items()}, T=T, a=a, b=b)
     if ctx.model_ok:
         mo = ctx.model([[17, [1, wire_timing(t), a, n]]])[0]
         m_ts, s_ts = [fq(p) for p in mo[0]], [fq(p) for p in mo[1]]
@@ -96,33 +203,52 @@ def check_timing(ctx, t, T, a, b):
         s_ts = spec_py(t, a, n)
         m_ts, m_start, m_end, m_off = impl_ts, impl['start'], impl['end'], impl['off']
     if impl_ts != m_ts or impl['start'] != m_start or impl['end'] != m_end or impl['off'] != m_off:
-        ctx.disagree('what=timestamps_tie;preselect=%s' % (pre is not None), case,
-                     [float(v) for v in impl_ts[:3]], [float(v) for v in m_ts[:3]],
+        ctx.disagree('what=timestamps_tie;preselect=%s;via=%s' % (pre is not None, via), case,
+                     [float(v) for v in impl_ts[:3]] + [float(impl['start']), float(impl['end']), float(impl['off'])],
+                     [float(v) for v in m_ts[:3]] + [float(m_start), float(m_end), float(m_off)],
                      'implementation timestamps/start/end/time_offset differ from the model', kind='tie')
     if impl_ts != s_ts:
         if pre is not None and straddles(t, a):
             sig = 'preselect;straddles_fix_date;symptom=timestamps_shifted_by_cbf_dump'
         else:
-            sig = 'what=timestamps;preselect=%s;lite=%s' % (pre is not None, t['cbf'] is None)
+            sig = 'what=timestamps;preselect=%s;lite=%s;start=%s;via=%s' % (pre is not None, t['cbf'] is None, where(t), via)
         ctx.disagree(sig, case, [float(v) for v in impl_ts[:3]], None,
                      'timestamps differ from sync+first+i*int+offset (-1 CBF dump before the documented fix date)',
                      spec=[float(v) for v in s_ts[:3]])
     half = Fraction(t['int_time']) / 2
     if impl_ts and (impl['start'] != impl_ts[0] - half or impl['end'] != impl_ts[-1] + half):
         ctx.disagree('what=start_end_bracket', case, [float(impl['start']), float(impl['end'])], None,
-                     'start/end time do not bracket the first/last dump by half a dump')
+                     'start/end time do not bracket the first/last dump by half a dump',
+                     spec=[float(impl_ts[0] - half), float(impl_ts[-1] + half)])
+    if impl['dump_period'] != Fraction(t['int_time']):
+        ctx.disagree('what=dump_period', case, float(impl['dump_period']), None, 'dump_period is not int_time',
+                     spec=t['int_time'])
     ctx.traces_validated += 1
-    ctx.note_case(('timing', repr(sorted(t.items())), T, a, b), nontrivial=n >= 2,
+    ctx.note_case(('timing', repr(sorted(t.items())), T, tuple(sl), via), nontrivial=n >= 2,
                   sample=dict(kind='timing', **case))
     ctx.count('timing:preselected' if pre is not None else 'timing:full')
     ctx.count('timing:lite' if t['cbf'] is None else 'timing:cbf')
+    ctx.count('timing:start_' + where(t))
+    ctx.count('timing:via_' + via)
+    if pre is not None and tuple(sl) != (a, b):
+        ctx.count('timing:unnormalised_slice')
 
 
-def spec_py(t, a, n):
-    dte = (FIX_DATES[0] if t['cbf4k'] else FIX_DATES[1]) if t['cmc2'] else FIX_DATES[2]
-    s0 = Fraction(t['sync']) + Fraction(t['first']) + Fraction(t['off'])
-    fix = Fraction(t['cbf']) if (t['cbf'] is not None and s0 < dte) else 0
-    return [s0 + (a + i) * Fraction(t['int_time']) - fix for i in range(n)]
+def check_fix_date_reading(ctx):
+    """katpoint.Timestamp('<date>').secs, as used by _before, is UTC midnight of the date for the dates of the rule."""
+    try:
+        from vh import core
+        from vh.items import c17 as items
+        dates = items.fix_date_strings(core.REPO)
+    except Exception:
+        dates = []
+    for (s, secs) in dates + [('2019-02-11', FIX_DATES[0]), ('2019-03-03', FIX_DATES[1]), ('2019-03-15', FIX_DATES[2])]:
+        got = katpoint.Timestamp(s).secs
+        if got != secs:
+            ctx.disagree('what=fix_date_reading', dict(date=s), got, None,
+                         'katpoint.Timestamp(date).secs is not UTC midnight of the date', spec=secs)
+        ctx.note_case(('date', s), sample=None)
+        ctx.count('fix_date_reading')
 
 
 # ---------------------------------------------------------------------------- spectral windows
@@ -130,8 +256,7 @@ def spec_py(t, a, n):
 def spw_cases(ctx):
     rng = ctx.rng
     out = []
-    ns = range(1, 10) if ctx.tier == 'thorough' else [1, 2, 3, 4, 5, 8, 9]
-    for n in ns:
+    for n in range(1, 10):
         for side in (1, -1):
             cw = rng.choice([1.0, 0.5, 4.0])
             bw = cw * 2520.0
@@ -140,132 +265,341 @@ def spw_cases(ctx):
     return out
 
 
-def check_spw(ctx, centre, bw, n, side):
-    w = SpectralWindow(centre, bw / n, n, sideband=side, bandwidth=bw)
+def spw_attrs(s):
+    return [exact(s.centre_freq), exact(s.bandwidth), int(s.num_chans), int(s.sideband), exact(s.channel_width)]
+
+
+def model_attrs(o):
+    return [fq(o[0]), fq(o[1]), o[2], o[3], fq(o[4])]
+
+
+def check_spw(ctx, centre, bw, n, side, via_width=False):
+    if via_width:
+        w = SpectralWindow(centre, bw / n, n, sideband=side)          # bandwidth derived from the channel width
+    else:
+        w = SpectralWindow(centre, 1.0, n, sideband=side, bandwidth=bw)   # channel width derived from the bandwidth
     wire = [q(centre), q(bw), n, side]
     cases = [[17, [2, wire]]]
     subs = [(f, l) for f in range(-1, n + 1) for l in range(-1, n + 2)]
     ms = list(range(1, 10))
     cases += [[17, [3, wire, f, l]] for f, l in subs]
     cases += [[17, [4, wire, m]] for m in ms]
-    if not ctx.model_ok:
-        return
-    outs = ctx.model(cases)
-    case = dict(centre=centre, bandwidth=bw, num_chans=n, sideband=side)
-    if [exact(v) for v in w.channel_freqs] != [fq(p) for p in outs[0]]:
-        ctx.disagree('what=channel_freqs', case, w.channel_freqs.tolist(), [float(fq(p)) for p in outs[0]],
-                     'channel_freqs differ from centre + sideband*(k - N//2)*bandwidth/N')
-    for (f, l), o in zip(subs, outs[1:1 + len(subs)]):
+    case = dict(centre=centre, bandwidth=bw, num_chans=n, sideband=side, via_width=via_width)
+    f0 = [exact(v) for v in w.channel_freqs]
+    cw0 = Fraction(bw) / n
+    want0 = [Fraction(centre) + side * (k - n // 2) * Fraction(bw) / n for k in range(n)]    # the property itself
+    if f0 != want0 or exact(w.channel_width) != cw0 or exact(w.bandwidth) != Fraction(bw):
+        ctx.disagree('what=channel_freqs', case, w.channel_freqs.tolist(), None,
+                     'channel_freqs / channel_width differ from centre + sideband*(k - N//2)*bandwidth/N, bandwidth/N',
+                     spec=[float(v) for v in want0])
+    outs = ctx.model(cases) if ctx.model_ok else None
+    if outs is not None and (f0 != [fq(p) for p in outs[0][0]] or want0 != [fq(p) for p in outs[0][1]]):
+        ctx.disagree('what=channel_freqs_tie', case, w.channel_freqs.tolist(), [float(fq(p)) for p in outs[0][0]],
+                     'channel_freqs differ from the model', kind='tie')
+    for k, (f, l) in enumerate(subs):
         try:
             s = w.subrange(f, l)
             got = [exact(v) for v in s.channel_freqs]
         except IndexError:
-            got = None
-        exp = [fq(p) for p in o[1]] if o else None
-        want = [exact(v) for v in w.channel_freqs[f:l]] if (0 <= f < l <= n) else None   # the property itself
-        if got != exp or got != want:
+            s = got = None
+        valid = (0 <= f < l <= n)
+        want = want0[f:l] if valid else None
+        if got != want or (s is not None and (exact(s.channel_width) != cw0 or s.num_chans != l - f
+                                              or exact(s.bandwidth) != cw0 * (l - f) or s.sideband != side)):
             ctx.disagree('what=subrange', dict(case, first=f, last=l), None if got is None else [float(v) for v in got],
-                         None if exp is None else [float(v) for v in exp],
-                         'subrange(first,last) channel centres differ from channels first..last of the original '
+                         None,
+                         'subrange(first,last) channel centres / width differ from channels first..last of the original '
                          '(or an invalid range was accepted / a valid one rejected)',
                          spec=None if want is None else [float(v) for v in want])
-        ctx.note_case(('subrange', centre, bw, n, side, f, l), nontrivial=(0 <= f < l <= n))
-    for m, o in zip(ms, outs[1 + len(subs):]):
+        if outs is not None:
+            o = outs[1 + k]
+            exp = [fq(p) for p in o[1]] if o else None
+            if got != exp or (s is not None and spw_attrs(s) != model_attrs(o[0])):
+                ctx.disagree('what=subrange_tie', dict(case, first=f, last=l),
+                             None if got is None else [float(v) for v in got],
+                             None if exp is None else [float(v) for v in exp], 'subrange differs from the model', kind='tie')
+        ctx.note_case(('subrange', centre, bw, n, side, f, l, via_width), nontrivial=valid)
+        if s is not None and valid and l - f >= 2:
+            # a sub-range of the sub-range, and a re-channelisation of it, still sit on the original grid
+            f2 = ctx.rng.randint(0, l - f - 1)
+            l2 = ctx.rng.randint(f2 + 1, l - f)
+            # only channel counts whose (half) channel width is a dyadic number, so that float64 stays exact
+            ok_m = [m for m in range(1, 10) if (lambda d: d & (d - 1) == 0)((cw0 * (l - f) / (2 * m)).denominator)]
+            m2 = ctx.rng.choice(ok_m)
+            try:
+                nested = [exact(v) for v in s.subrange(f2, l2).channel_freqs]
+                r2 = s.rechannelise(m2)
+                g2 = [exact(v) for v in r2.channel_freqs]
+                edges = (g2[0] - side * cw0 * (l - f) / m2 / 2, g2[-1] + side * cw0 * (l - f) / m2 / 2, len(g2))
+            except Exception as e:
+                nested, edges = repr(e), None
+            if nested != want0[f + f2:f + l2] or edges != (want0[f] - side * cw0 / 2, want0[l - 1] + side * cw0 / 2, m2):
+                ctx.disagree('what=subrange_nested', dict(case, first=f, last=l, first2=f2, last2=l2, m2=m2),
+                             str(nested)[:200], None,
+                             'a sub-range / re-channelisation of a sub-range left the channel grid of the original',
+                             spec=[float(v) for v in want0[f + f2:f + l2]])
+    lo0 = f0[0] - side * cw0 / 2
+    hi0 = f0[-1] + side * cw0 / 2
+    for k, m in enumerate(ms):
         r = w.rechannelise(m)
         got = [exact(v) for v in r.channel_freqs]
-        cwr = Fraction(r.bandwidth) / r.num_chans
-        lo = got[0] - r.sideband * cwr / 2
-        hi = got[-1] + r.sideband * cwr / 2
-        cw0 = Fraction(bw) / n
-        f0 = [exact(v) for v in w.channel_freqs]
-        lo0 = f0[0] - side * cw0 / 2
-        hi0 = f0[-1] + side * cw0 / 2
-        if got != [fq(p) for p in o[1]]:
-            ctx.disagree('what=rechannelise_tie', dict(case, m=m), [float(v) for v in got],
-                         [float(fq(p)) for p in o[1]], 'rechannelise differs from model', kind='tie')
-        if (lo, hi) != (lo0, hi0) or r.num_chans != m:
-            ctx.disagree('what=rechannelise_edges', dict(case, m=m), [float(lo), float(hi)], [float(lo0), float(hi0)],
-                         'rechannelise moved a band edge')
-        ctx.note_case(('rechan', centre, bw, n, side, m), nontrivial=m != n)
-    ctx.note_case(('spw', centre, bw, n, side), sample=dict(kind='spw', **case))
+        cwr = Fraction(bw) / m
+        lo = got[0] - side * cwr / 2
+        hi = got[-1] + side * cwr / 2
+        if outs is not None:
+            o = outs[1 + len(subs) + k]
+            if got != [fq(p) for p in o[1]] or spw_attrs(r) != model_attrs(o[0]):
+                ctx.disagree('what=rechannelise_tie', dict(case, m=m), [float(v) for v in got],
+                             [float(fq(p)) for p in o[1]], 'rechannelise differs from model', kind='tie')
+        bad_grid = [(j, kk) for j in range(m) for kk in range(n)
+                    if j * n == kk * m and got[j] - side * cwr / 2 != f0[kk] - side * cw0 / 2]
+        if (lo, hi) != (lo0, hi0) or r.num_chans != m or len(got) != m or exact(r.channel_width) != cwr \
+                or exact(r.bandwidth) != Fraction(bw) or r.sideband != side or bad_grid:
+            ctx.disagree('what=rechannelise_edges', dict(case, m=m), [float(lo), float(hi)], None,
+                         'rechannelise moved a band edge / a shared channel edge, or changed bandwidth, sideband or the count',
+                         spec=[float(lo0), float(hi0)])
+        ctx.note_case(('rechan', centre, bw, n, side, m, via_width), nontrivial=m != n)
+    ctx.note_case(('spw', centre, bw, n, side, via_width), sample=dict(kind='spw', **case))
     ctx.count('spw')
 
 
 # ---------------------------------------------------------------------------- preselect == select
 
-def check_preselect_equiv(ctx, t, T, F, a, b, c, d_):
-    x = build(t, T, F, ctx.seed + 7)
-    case = dict(timing={k: (float(v) if isinstance(v, float) else v) for k, v in t.items()}, T=T, F=F, dumps=[a, b], channels=[c, d_])
+CENTRES = [1284.0, 856.0 * 1024, 0.0, 1284e6]
+NAMES = ['timestamps', 'freqs', 'channel_width', 'vis', 'flags', 'weights', 'sensor', 'shape', 'start_end']
+
+
+def obs(ds):
+    return dict(timestamps=np.asarray(ds.timestamps), freqs=np.asarray(ds.freqs), vis=ds.vis[:],
+                channel_width=np.asarray(ds.channel_width),
+                flags=ds.flags[:], weights=ds.weights[:], sensor=np.asarray(ds.sensor['anc_air_temperature']),
+                shape=np.asarray(ds.shape))
+
+
+def check_preselect_equiv(ctx, t, T, F, dsl, csl, via='direct', cw=1.0, centre=1284.0, sub=None):
+    """dsl / csl: (start, stop) of the dumps / channels preselection, or None for 'key not given'."""
+    a, b, _ = slice(*(dsl or (None, None))).indices(T)
+    c, d_, _ = slice(*(csl or (None, None))).indices(F)
+    x = build(t, T, F, ctx.seed + 7, cw=cw, centre=centre)
+    case = dict(timing=timing_case(t), T=T, F=F, dsl=None if dsl is None else list(dsl),
+                csl=None if csl is None else list(csl), via=via, cw=cw, centre=centre)
+    bw = F * cw
+    want_f = [Fraction(centre) + (k - F // 2) * Fraction(bw) / F for k in range(F)]   # the property itself
+    pre = {}
+    if dsl is not None:
+        pre['dumps'] = slice(*dsl)
+    if csl is not None:
+        pre['channels'] = slice(*csl)
+    keys = '+'.join(sorted(pre))
+    empty = b <= a or d_ <= c
+    if sub is None and not empty and b - a >= 2 and d_ - c >= 2:
+        x0 = ctx.rng.randint(0, b - a - 1)
+        x1 = ctx.rng.randint(x0 + 1, b - a)
+        y0 = ctx.rng.randint(0, d_ - c - 1)
+        y1 = ctx.rng.randint(y0 + 1, d_ - c)
+        sub = [x0, x1, y0, y1]
+
+    def full_obs(ds, is_pre):
+        o = obs(ds)
+        # start/end are attributes of the data set as opened: the preselected one must bracket ITS dumps
+        o['start_end'] = np.array([ds.start_time.secs, ds.end_time.secs]) if is_pre else \
+            np.array([ds.timestamps[0] - 0.5 * t['int_time'], ds.timestamps[-1] + 0.5 * t['int_time']]) \
+            if len(ds.timestamps) else np.array([])
+        return o
+    # ---- implementation runs (any exception on an in-domain input is itself a disagreement)
+    stage = 'open_full'
     try:
         full = x.d
-        pre = dict(dumps=slice(a, b), channels=slice(c, d_))
-        dp = v4.reopen(x, dict(preselect=pre), dict(preselect=pre, time_offset=t['off']))
-        full.select(dumps=slice(a, b), channels=slice(c, d_))
-        names = ['timestamps', 'freqs', 'vis', 'flags', 'weights', 'sensor', 'shape']
-
-        def obs(ds):
-            return dict(timestamps=np.asarray(ds.timestamps), freqs=np.asarray(ds.freqs), vis=ds.vis[:],
-                        flags=ds.flags[:], weights=ds.weights[:], sensor=np.asarray(ds.sensor['anc_air_temperature']),
-                        shape=np.asarray(ds.shape))
-        o1, o2 = obs(dp), obs(full)
-        for nm in names:
-            if not np.array_equal(o1[nm], o2[nm]):
-                if nm in ('timestamps', 'sensor') and straddles(t, a):
-                    sig = 'preselect;straddles_fix_date;symptom=timestamps_shifted_by_cbf_dump'
-                else:
-                    sig = 'what=preselect_equiv;observable=%s' % nm
-                ctx.disagree(sig, case, np.asarray(o1[nm]).ravel()[:4].tolist(), None,
-                             'preselected data set differs from select() on the whole data set in ' + nm,
-                             spec=np.asarray(o2[nm]).ravel()[:4].tolist())
-        # later selections are relative to the preselected subset
-        if b - a >= 2 and d_ - c >= 2:
-            x0 = ctx.rng.randint(0, b - a - 1)
-            x1 = ctx.rng.randint(x0 + 1, b - a)
-            y0 = ctx.rng.randint(0, d_ - c - 1)
-            y1 = ctx.rng.randint(y0 + 1, d_ - c)
+        f_full = [exact(v) for v in full.freqs]
+        cw_full = exact(full.channel_width)
+        a_full = spw_attrs(full.spectral_windows[0])
+        stage = 'open_preselected'
+        dp = open_pre(x, t, pre, via)
+        f_pre = [exact(v) for v in dp.freqs]
+        cw_pre = exact(dp.channel_width)
+        a_pre = spw_attrs(dp.spectral_windows[0])
+        stage = 'select'
+        full.select(**pre)
+        o1, o2 = full_obs(dp, True), full_obs(full, False)
+        r1 = r2 = None
+        if sub is not None and not empty:
+            stage = 'later_select'
+            x0, x1, y0, y1 = sub
             dp.select(dumps=slice(x0, x1), channels=slice(y0, y1))
             full.select(dumps=slice(a + x0, a + x1), channels=slice(c + y0, c + y1))
-            o1, o2 = obs(dp), obs(full)
-            for nm in names:
-                if not np.array_equal(o1[nm], o2[nm]) and not (nm in ('timestamps', 'sensor') and straddles(t, a)):
-                    ctx.disagree('what=preselect_relative_select;observable=%s' % nm, dict(case, sub=[x0, x1, y0, y1]),
-                                 np.asarray(o1[nm]).ravel()[:4].tolist(), None,
-                                 'selection on a preselected data set is not relative to the subset: ' + nm,
-                                 spec=np.asarray(o2[nm]).ravel()[:4].tolist())
+            r1, r2 = obs(dp), obs(full)
+    except Exception as e:
+        if empty and stage == 'open_preselected' and isinstance(e, (IndexError, ValueError)):
+            ctx.note_case(('pre-empty', repr(sorted(t.items())), T, F, dsl, csl, via), nontrivial=False)
+            ctx.count('preselect_equiv:empty_rejected')
+            return
+        ctx.disagree('what=exception;stream=preselect_equiv;stage=%s;keys=%s;via=%s;exc=%s'
+                     % (stage, keys, via, type(e).__name__), case, repr(e)[:300], None,
+                     'the implementation raised on an in-domain preselection / selection')
+        return
     finally:
         v4.cleanup(x)
+    # ---- comparisons
+    if f_full != want_f or cw_full != Fraction(cw):
+        ctx.disagree('what=v4_freqs;preselect=False', case, [float(v) for v in f_full[:4]], None,
+                     'freqs / channel_width of the data set differ from center_freq + (k - N//2) * bandwidth / N',
+                     spec=[float(v) for v in want_f[:4]])
+    if f_pre != want_f[c:d_] or cw_pre != Fraction(cw):
+        ctx.disagree('what=v4_freqs;preselect=True;via=%s' % via, case, [float(v) for v in f_pre[:4]], None,
+                     'freqs / channel_width of the preselected data set differ from those of channels c..d',
+                     spec=[float(v) for v in want_f[c:d_][:4]])
+    if ctx.model_ok and not empty:
+        mo = ctx.model([[17, [6, q(centre), q(bw), F, c, d_]]])[0]
+        if f_full != [fq(p) for p in mo[1]] or want_f != [fq(p) for p in mo[2]] or not mo[3] \
+                or f_pre != [fq(p) for p in mo[3][1]] or a_full != model_attrs(mo[0]) or a_pre != model_attrs(mo[3][0]):
+            ctx.disagree('what=v4_freqs_tie', case, [float(v) for v in f_pre[:4]],
+                         [float(fq(p)) for p in (mo[3][1] if mo[3] else [])][:4],
+                         'spectral window of the (preselected) data set differs from the model', kind='tie')
+    for nm in NAMES:
+        if not np.array_equal(o1[nm], o2[nm]):
+            if nm in ('timestamps', 'sensor') and straddles(t, a):
+                sig = 'preselect;straddles_fix_date;symptom=timestamps_shifted_by_cbf_dump'
+            else:
+                sig = 'what=preselect_equiv;observable=%s;keys=%s;via=%s' % (nm, keys, via)
+            ctx.disagree(sig, case, np.asarray(o1[nm]).ravel()[:4].tolist(), None,
+                         'preselected data set differs from select() on the whole data set in ' + nm,
+                         spec=np.asarray(o2[nm]).ravel()[:4].tolist())
+    # later selections are relative to the preselected subset
+    if r1 is not None:
+        for nm in NAMES:
+            if nm == 'start_end':
+                continue
+            if not np.array_equal(r1[nm], r2[nm]) and not (nm in ('timestamps', 'sensor') and straddles(t, a)):
+                ctx.disagree('what=preselect_relative_select;observable=%s' % nm, dict(case, sub=list(sub)),
+                             np.asarray(r1[nm]).ravel()[:4].tolist(), None,
+                             'selection on a preselected data set is not relative to the subset: ' + nm,
+                             spec=np.asarray(r2[nm]).ravel()[:4].tolist())
     ctx.traces_validated += 1
-    ctx.note_case(('pre', repr(sorted(t.items())), T, F, a, b, c, d_), nontrivial=(b - a >= 2 and d_ - c >= 2),
+    ctx.note_case(('pre', repr(sorted(t.items())), T, F, dsl, csl, via, cw, centre), nontrivial=(b - a >= 2 and d_ - c >= 2),
                   sample=dict(kind='preselect_equiv', **case))
     ctx.count('preselect_equiv')
+    ctx.count('preselect_equiv:keys=' + keys)
+    ctx.count('preselect_equiv:F_%s' % ('odd' if F % 2 else 'even'))
+    ctx.count('preselect_equiv:via_' + via)
+
+
+def check_concat(ctx, t, T1, T2, F, csl, dsl):
+    """katdal.open of a LIST of RDB files: channel preselection = channel selection of the concatenated data set; a dump
+    preselection is either refused or equal to the dump selection of the concatenated data set."""
+    x1 = build(t, T1, F, ctx.seed + 11, cw=4.0, centre=1284.0)
+    t2 = dict(t, sync=t['sync'] + 4096.0)
+    x2 = None
+    case = dict(concat=True, timing=timing_case(t), T1=T1, T2=T2, F=F, csl=list(csl), dsl=list(dsl))
+    try:
+        x2 = v4.build_v4(T=T2, F=F, seed=ctx.seed + 12, cbid='1234567990', sync_time=t2['sync'],
+                         first_timestamp=t['first'], int_time=t['int_time'], bandwidth=F * 4.0, center_freq=1284.0,
+                         cbf=None if t['cbf'] is None else (t['cbf'], 64, 1712e6),
+                         sub_pool_resources=('cbf_dev_2,sdp_1,m000,m001' if t['cmc2'] else 'cbf_1,sdp_1,m000,m001'),
+                         sub_product=('c856M4k' if t['cbf4k'] else 'c856M1k'))
+        files = [write_rdb(x1), write_rdb(x2)]
+        try:
+            full = katdal.open(files, time_offset=t['off'])
+            pre = katdal.open(files, time_offset=t['off'], preselect=dict(channels=slice(*csl)))
+            full.select(channels=slice(*csl))
+            o1 = dict(timestamps=np.asarray(pre.timestamps), freqs=np.asarray(pre.freqs), vis=pre.vis[:],
+                      flags=pre.flags[:], weights=pre.weights[:], shape=np.asarray(pre.shape))
+            o2 = dict(timestamps=np.asarray(full.timestamps), freqs=np.asarray(full.freqs), vis=full.vis[:],
+                      flags=full.flags[:], weights=full.weights[:], shape=np.asarray(full.shape))
+            try:
+                dpre = katdal.open(files, time_offset=t['off'], preselect=dict(dumps=slice(*dsl)))
+                full.select(dumps=slice(*dsl))
+                dts = (np.asarray(dpre.timestamps), np.asarray(full.timestamps))
+            except IndexError:
+                dts = None
+        except Exception as e:
+            ctx.disagree('what=exception;stream=concat;exc=%s' % type(e).__name__, case, repr(e)[:300], None,
+                         'opening / selecting a concatenated data set raised on an in-domain input')
+            return
+    finally:
+        v4.cleanup(x1)
+        if x2 is not None:
+            v4.cleanup(x2)
+    for nm in o1:
+        if not np.array_equal(o1[nm], o2[nm]):
+            ctx.disagree('what=concat_preselect_equiv;observable=%s' % nm, case, np.asarray(o1[nm]).ravel()[:4].tolist(),
+                         None, 'channel preselection of a concatenated data set differs from selecting the channels: ' + nm,
+                         spec=np.asarray(o2[nm]).ravel()[:4].tolist())
+    if dts is not None and not np.array_equal(dts[0], dts[1]):
+        ctx.disagree('what=concat_preselect_dumps_accepted', case, dts[0][:4].tolist(), None,
+                     'a dump preselection of a concatenated data set was accepted and differs from selecting the dumps',
+                     spec=dts[1][:4].tolist())
+    ctx.traces_validated += 1
+    ctx.note_case(('concat', repr(sorted(t.items())), T1, T2, F, tuple(csl), tuple(dsl)), sample=None)
+    ctx.count('concat')
+
+
+# ---------------------------------------------------------------------------- preselect validation
+
+FORMS = [dict(dumps=slice(0, 2)), dict(channels=slice(1, 3)), dict(dumps=slice(0, 4, 1)), dict(dumps=slice(0, 4, 2)),
+         dict(channels=slice(None, None, -1)), dict(ants='m000'), dict(dumps=slice(0, 2), corrprods='auto'),
+         dict(dumps=slice(None), channels=slice(None, 2, None)), dict(targets=0), dict(dumps=slice(1, 3, 3)),
+         dict(dumps=2), dict(channels=[0, 1]), dict(dumps=slice(0, 2, 0)), dict(Dumps=slice(0, 2)), dict(dump=slice(0, 2)),
+         dict(timerange=(0, 1)), dict(scans='track'), dict(freqrange=(0, 1e9)), dict(pol='h'), dict(spw=0),
+         dict(channels=slice(0, 2), dumps=slice(1, 3, -1)), dict(channels=slice(0, 4, 2), dumps=slice(1, 3)),
+         dict(dumps=slice(0, 2), channels=slice(0, 2), flags='cam'), dict(channels=np.arange(2)), {},
+         # reversed ranges (a negative step that would actually select something)
+         dict(dumps=slice(None, None, -1)), dict(dumps=slice(3, 0, -1)), dict(channels=slice(3, 1, -1)),
+         dict(dumps=slice(3, None, -1), channels=slice(0, 2)), dict(dumps=slice(0, 4, 3)), dict(channels=slice(0, 4, 3))]
+# every keyword DataSet.select understands, plus near misses: alone and next to a valid key, with a VALID slice value
+KEY_POOL = ['dumps', 'channels', 'ants', 'corrprods', 'timerange', 'targets', 'target_tags', 'channel', 'scans',
+            'compscans', 'inputs', 'pol', 'freqrange', 'weights', 'flags', 'reset', 'strict', 'subarray', 'spw',
+            'dump', 'time', 'freqs', 'chans', 'Channels', 'DUMPS', 'channels ', 'baselines', 'index']
+FORMS += [{k: slice(0, 2)} for k in KEY_POOL] + [{'dumps': slice(1, 3), k: slice(0, 2)} for k in KEY_POOL] + \
+         [{k: slice(0, 2), 'channels': slice(1, 3)} for k in KEY_POOL]
+
+
+def check_preselect_form(ctx, x, pre):
+    keys = [[ord(ch) for ch in k] for k in pre]
+    steps = [([v.step] if (isinstance(v, slice) and v.step is not None) else ([] if isinstance(v, slice) else [99]))
+             for v in pre.values()]
+    mo = ctx.model([[17, [5, keys, steps]]])[0] if ctx.model_ok else None
+    ok = 0
+    for via in ('direct', 'meta'):      # with a chunk store, and metadata only
+        try:
+            open_pre(x, dict(off=0.0), pre, via)
+            ok = 1
+        except (IndexError, TypeError, ValueError, AssertionError):
+            pass
+    want = int(set(pre) <= {'dumps', 'channels'} and
+               all(isinstance(v, slice) and (v.step is None or (type(v.step) is int and v.step == 1)) for v in pre.values()))
+    if ok != want:
+        bad_key = not set(pre) <= {'dumps', 'channels'}
+        ctx.disagree('what=preselect_validation;%s' % ('unknown_key' if bad_key else 'step'), dict(preselect=repr(pre)), ok, None,
+                     'preselect accepted/rejected contrary to the rule (only unit-step dumps/channels slices)',
+                     spec=want)
+    if mo is not None and mo != ok:
+        ctx.disagree('what=preselect_validation_tie', dict(preselect=repr(pre)), ok, mo,
+                     'preselect validation differs from the model', kind='tie')
+    ctx.note_case(('preval', repr(pre)), sample=None)
+    ctx.count('preselect_validation')
 
 
 def check_preselect_validation(ctx):
-    x = build(gen_timing(ctx.rng), 4, 4, ctx.seed)
-    forms = [dict(dumps=slice(0, 2)), dict(channels=slice(1, 3)), dict(dumps=slice(0, 4, 1)), dict(dumps=slice(0, 4, 2)),
-             dict(channels=slice(None, None, -1)), dict(ants='m000'), dict(dumps=slice(0, 2), corrprods='auto'),
-             dict(dumps=slice(None), channels=slice(None, 2, None)), dict(targets=0), dict(dumps=slice(1, 3, 3))]
+    rng = ctx.rng
+    x = build(gen_timing(rng), 4, 4, ctx.seed)
     try:
-        for pre in forms:
-            keys = [[ord(ch) for ch in k] for k in pre]
-            steps = [([v.step] if (isinstance(v, slice) and v.step is not None) else ([] if isinstance(v, slice) else [99]))
-                     for v in pre.values()]
-            mo = ctx.model([[17, [5, keys, steps]]])[0] if ctx.model_ok else None
-            try:
-                v4.reopen(x, dict(preselect=pre), dict(preselect=pre))
-                ok = 1
-            except (IndexError, TypeError, ValueError, AssertionError):
-                ok = 0
-            want = int(set(pre) <= {'dumps', 'channels'} and all(isinstance(v, slice) and v.step in (None, 1) for v in pre.values()))
-            if ok != want or (mo is not None and mo != want):
-                ctx.disagree('what=preselect_validation', dict(preselect=repr(pre)), ok, mo,
-                             'preselect accepted/rejected contrary to the rule (only unit-step dumps/channels slices)',
-                             spec=want)
-            ctx.note_case(('preval', repr(pre)), sample=None)
-            ctx.count('preselect_validation')
+        for pre in FORMS:
+            check_preselect_form(ctx, x, pre)
+        for _ in range(ctx.scale(40, 400)):
+            pre = {}
+            for k in rng.sample(KEY_POOL + ['dumps', 'channels'] * 6, rng.randint(1, 3)):
+                a = rng.randint(0, 2)
+                b = rng.randint(a + 1, 4)
+                step = rng.choice([None, None, 1, 1, 2, -1, -1, 3, 0, -2])
+                if step is not None and step < 0:
+                    a, b = b - 1, (a - 1 if a > 0 else None)      # the same items, backwards
+                pre[k] = slice(a, b, step)
+            check_preselect_form(ctx, x, pre)
     finally:
         v4.cleanup(x)
 
+
+# ---------------------------------------------------------------------------- driver
 
 def run(ctx):
     rng = ctx.rng
@@ -273,35 +607,58 @@ def run(ctx):
     for f in ctx.findings:
         w = f['witness']
         check_timing(ctx, w['timing'], w['T'], w['a'], w['b'])
-    for _ in range(ctx.scale(150, 1500)):
+    check_fix_date_reading(ctx)
+    for _ in range(ctx.scale(170, 1700)):
         t = gen_timing(rng)
         T = rng.randint(1, 6)
-        if rng.random() < 0.5:
-            a, b = 0, T
+        via = rng.choice(['open'] * 4 + ['meta'] * 3 + ['direct'] * 13)
+        if rng.random() < 0.45:
+            sl = (0, T)
         else:
-            a = rng.randint(0, T - 1)
-            b = rng.randint(a + 1, T)
-        check_timing(ctx, t, T, a, b)
+            sl = gen_slice(rng, T)
+        check_timing(ctx, t, T, via=via, sl=sl)
     for (centre, bw, n, side) in spw_cases(ctx):
-        check_spw(ctx, centre, bw, n, side)
-    for _ in range(ctx.scale(60, 600)):
+        check_spw(ctx, centre, bw, n, side, via_width=rng.random() < 0.3)
+    for _ in range(ctx.scale(70, 700)):
         t = gen_timing(rng)
-        T, F = rng.randint(2, 8), rng.choice([4, 8])
-        a = rng.randint(0, T - 1)
-        b = rng.randint(a + 1, T)
+        T, F = rng.randint(2, 8), rng.choice([4, 8, 3, 5, 6, 7, 9, 2])
+        k = rng.random()
+        dsl = None if k < 0.15 else gen_slice(rng, T)
+        csl = None if 0.15 <= k < 0.3 else gen_slice(rng, F)
+        via = 'open' if rng.random() < 0.25 else 'direct'
+        check_preselect_equiv(ctx, t, T, F, dsl, csl, via=via, cw=rng.choice([1.0, 0.5, 4.0, 208984.375]),
+                              centre=rng.choice(CENTRES))
+    for _ in range(ctx.scale(6, 60)):
+        t = gen_timing(rng)
+        T1, T2, F = rng.randint(1, 4), rng.randint(1, 4), rng.choice([3, 4, 5, 8])
         c = rng.randint(0, F - 1)
-        d_ = rng.randint(c + 1, F)
-        check_preselect_equiv(ctx, t, T, F, a, b, c, d_)
+        # a dump range that is non-empty in BOTH parts (were it applied to each part on its own, it would be accepted)
+        a = rng.randint(0, min(T1, T2) - 1)
+        check_concat(ctx, t, T1, T2, F, (c, rng.randint(c + 1, F)), (a, rng.randint(a + 1, T1 + T2)))
     check_preselect_validation(ctx)
-    v4.cleanup_all() if False else None
 
 
 def replay(ctx, doc):
     case = doc['case']
-    if 'dumps' in case:
-        check_preselect_equiv(ctx, case['timing'], case['T'], case['F'], case['dumps'][0], case['dumps'][1],
-                              case['channels'][0], case['channels'][1])
+    if case.get('concat'):
+        check_concat(ctx, case['timing'], case['T1'], case['T2'], case['F'], case['csl'], case['dsl'])
+    elif 'dsl' in case or 'dumps' in case:
+        if 'dumps' in case:       # replay files written before the slices became part of the case
+            case = dict(case, dsl=case['dumps'], csl=case['channels'])
+        check_preselect_equiv(ctx, case['timing'], case['T'], case['F'], case['dsl'], case['csl'],
+                              via=case.get('via', 'direct'), cw=case.get('cw', 1.0), centre=case.get('centre', 1284.0),
+                              sub=case.get('sub'))
     elif 'timing' in case:
-        check_timing(ctx, case['timing'], case['T'], case['a'], case['b'])
+        check_timing(ctx, case['timing'], case['T'], case['a'], case['b'], via=case.get('via', 'direct'),
+                     sl=case.get('sl'))
     elif 'num_chans' in case:
-        check_spw(ctx, case['centre'], case['bandwidth'], case['num_chans'], case['sideband'])
+        check_spw(ctx, case['centre'], case['bandwidth'], case['num_chans'], case['sideband'],
+                  via_width=case.get('via_width', False))
+    elif 'preselect' in case:
+        x = build(gen_timing(ctx.rng), 4, 4, ctx.seed)
+        try:
+            check_preselect_form(ctx, x, eval(case['preselect'], dict(slice=slice, array=np.array, np=np)))
+        finally:
+            v4.cleanup(x)
+    elif 'date' in case:
+        check_fix_date_reading(ctx)
